@@ -38,12 +38,17 @@
  *                     protocol stubbed to return RV) with HEX.. as the remote stderr   -> rcp <RV> | S:HEX ...
  *   flush i           _flush_output(outbuf, out, th); _flush_output(errbuf, err, th)
  *   xrc HEX           _extract_rc on a copy of the string                   -> <ret> <string after>
+ *   xp NFDS TIMEOUT null|fd:ev:rev,.. KANS   the REAL xpoll() (src/common/xpoll.c, linked from the tree under test)
+ *                     on that array; poll(2) is interposed (-Wl,--wrap=poll) and answers KANS = E<errno> (fails) or
+ *                     R<rv>:<revents>,.. (return value, one revents word per entry)
+ *                     -> <rv> <errno afterwards> | -|<timeout>;fd:events,.. (what poll(2) was called with) | fd:ev:rev,..
  * Answers of feed/eof/drain/flush:  <ncalls> <last ret> <th->rc> | S:HEX S:HEX ...   (S = 1 stdout,
  * 2 stderr, r1/r2 raw) in call order.
  */
 #include "src/pdsh/dsh.c"
 #include "src/common/err.c"
 #include "src/pdsh/cbuf.c"
+#define RELAY_REAL_XPOLL 1
 #include "relay_stubs.h"
 
 #include <stdio.h>
@@ -77,6 +82,34 @@ int __wrap_fputs(const char *s, FILE *f)
     if (f == real_stdout_file) { record(1, s, strlen(s)); return 1; }
     if (f == real_stderr_file) { record(2, s, strlen(s)); return 1; }
     return __real_fputs(s, f);
+}
+
+/* ------------------------------------------------------------------ scripted poll(2) underneath the real xpoll() */
+#define FP_MAX 16
+static struct {
+    int active, called, fail_errno, rv, nrevs, timeout;
+    short revs[FP_MAX];
+    unsigned long n;
+    struct pollfd seen[FP_MAX];
+} fp;
+int __real_poll(struct pollfd *fds, nfds_t n, int timeout);
+int __wrap_poll(struct pollfd *fds, nfds_t n, int timeout)
+{
+    if (!fp.active)
+        return __real_poll(fds, n, timeout);
+    fp.called++;
+    fp.timeout = timeout;
+    fp.n = (unsigned long) n;
+    for (nfds_t i = 0; i < n && i < FP_MAX; i++)
+        fp.seen[i] = fds[i];
+    if (fp.fail_errno) {
+        errno = fp.fail_errno;
+        return -1;
+    }
+    for (nfds_t i = 0; i < n; i++)
+        fds[i].revents = i < (nfds_t) fp.nrevs ? fp.revs[i] : 0;
+    errno = EAGAIN;             /* errno is unspecified after a successful call: xpoll() promises 0 to its callers */
+    return fp.rv;
 }
 
 /* ------------------------------------------------------------------ scripted read(2) faults
@@ -406,6 +439,62 @@ int main(int argc, char **argv)
             ans_flush();
             Free((void **) &buf);
             free(b);
+            continue;
+        }
+
+        if (!strcmp(op, "xp")) {
+            char *a1 = strtok_r(NULL, " \t\r\n", &save);
+            char *a2 = strtok_r(NULL, " \t\r\n", &save);
+            char *a3 = strtok_r(NULL, " \t\r\n", &save);
+            char *a4 = strtok_r(NULL, " \t\r\n", &save);
+            struct xpollfd xf[FP_MAX];
+            int nx = 0, isnull, rv, e;
+            if (!a1 || !a2 || !a3 || !a4) { ans_str("bad-op"); ans_flush(); continue; }
+            isnull = !strcmp(a3, "null");
+            if (!isnull && strcmp(a3, "-")) {
+                char *sv2 = NULL;
+                for (char *e1 = strtok_r(a3, ",", &sv2); e1 && nx < FP_MAX; e1 = strtok_r(NULL, ",", &sv2)) {
+                    int fd = 0, ev = 0, rev = 0;
+                    if (sscanf(e1, "%d:%d:%d", &fd, &ev, &rev) != 3) { nx = -1; break; }
+                    xf[nx].fd = fd; xf[nx].events = (short) ev; xf[nx].revents = (short) rev;
+                    nx++;
+                }
+            }
+            if (nx < 0 || (!isnull && atoi(a1) > nx)) { ans_str("bad-op"); ans_flush(); continue; }   /* never read past the array */
+            memset(&fp, 0, sizeof fp);
+            fp.active = 1;
+            if (a4[0] == 'E')
+                fp.fail_errno = atoi(a4 + 1);
+            else {
+                char *c = strchr(a4, ':');
+                fp.rv = atoi(a4 + 1);
+                for (c = c ? c + 1 : NULL; c && *c && fp.nrevs < FP_MAX; ) {
+                    fp.revs[fp.nrevs++] = (short) atoi(c);
+                    c = strchr(c, ',');
+                    if (c) c++;
+                }
+            }
+            errno = 0;
+            rv = xpoll(isnull ? NULL : xf, atoi(a1), atoi(a2));
+            e = errno;
+            fp.active = 0;
+            ans_int(rv); ans_str(" "); ans_int(e); ans_str(" | ");
+            if (!fp.called) ans_str("-");
+            else {
+                ans_int(fp.timeout); ans_str(";");
+                for (unsigned long i = 0; i < fp.n && i < FP_MAX; i++) {
+                    if (i) ans_str(",");
+                    ans_int(fp.seen[i].fd); ans_str(":"); ans_int(fp.seen[i].events);
+                }
+                if (fp.called > 1) ans_str(";calls="), ans_int(fp.called);
+            }
+            ans_str(" | ");
+            if (isnull || nx == 0) ans_str("-");
+            for (int i = 0; !isnull && i < nx; i++) {
+                if (i) ans_str(",");
+                ans_int(xf[i].fd); ans_str(":"); ans_int(xf[i].events); ans_str(":"); ans_int(xf[i].revents);
+            }
+            ans_flush();
             continue;
         }
 
